@@ -63,6 +63,16 @@ def check_dispatcher(ctx, rule: str, wakeups=True, consumers=True, reconnect=Non
     start_fn = inline.expanded(ctx, start)  # thread creation moved into a private helper is still thread creation
     scfg = cfg_of(start_fn)
     creations = _thread_creations(start_fn)
+    # a Thread object can be started once: a thread that start() starts must be created in start() (stop() ends it on every
+    # disconnect), not once in the constructor
+    created_here = {field for field, _t, _st in creations}
+    started = sorted({c[:-len(".start")] for n in scfg.real_nodes() for c in n.call_names() if c.endswith("_thread.start") and c.startswith("self.")})
+    stale = [fld for fld in started if fld not in created_here]
+    if stale:
+        elsewhere = [m.qualname for m in cls.methods.values() if m is not start and any(fld == fl for fl, _t, _s in _thread_creations(inline.expanded(ctx, m)) for fld in stale)]
+        ctx.ob(rule, "ProtocolDispatcher.start", False, f"start() starts {stale[0]} without creating it (created in {elsewhere or 'another method'}): on the second connection Thread.start() raises "
+               "RuntimeError (threads can only be started once), nothing is received or answered after a reconnect", key="created-per-start " + stale[0], where=start.where)
+        return
     ctx.require(len(creations) >= 2, "ProtocolDispatcher.start: fewer than two thread creations found")
     stop_names = [call_name(c) or "" for c in calls_in(stop.node)]
     stop_assigns = {dotted(t): norm(st.value) for st in rules.func_stmts(stop.node) if isinstance(st, ast.Assign) for t in st.targets}
